@@ -14,6 +14,8 @@ use syn::Expr;
 pub struct Rule {
     pub id: String,
     pub pat: Expr,
+    /// second statement of a two-statement pattern (`a ;; b => rep`)
+    pub pat2: Option<Expr>,
     pub rep: TokenStream,
     pub text: String,
 }
@@ -27,9 +29,17 @@ pub fn parse_rules(text: &str) -> Result<Vec<Rule>, String> {
         }
         let (id, rest) = line.split_once(':').ok_or_else(|| format!("rule without id: {}", line))?;
         let (pat, rep) = rest.split_once("=>").ok_or_else(|| format!("rule without =>: {}", line))?;
+        let (pat, pat2) = match pat.split_once(";;") {
+            Some((a, b)) => (a, Some(b)),
+            None => (pat, None),
+        };
         let pat: Expr = syn::parse_str(pat.trim()).map_err(|e| format!("pattern of {}: {}", id, e))?;
+        let pat2: Option<Expr> = match pat2 {
+            Some(b) => Some(syn::parse_str(b.trim()).map_err(|e| format!("second pattern of {}: {}", id, e))?),
+            None => None,
+        };
         let rep: TokenStream = rep.trim().parse().map_err(|e| format!("replacement of {}: {:?}", id, e))?;
-        rules.push(Rule { id: id.trim().to_string(), pat, rep, text: line.to_string() });
+        rules.push(Rule { id: id.trim().to_string(), pat, pat2, rep, text: line.to_string() });
     }
     Ok(rules)
 }
@@ -175,6 +185,9 @@ pub fn instantiate(rep: TokenStream, b: &HashMap<String, Expr>) -> TokenStream {
 
 pub fn apply_rules_once(e: &Expr, rules: &[Rule]) -> Option<(Expr, String)> {
     for r in rules {
+        if r.pat2.is_some() {
+            continue;
+        }
         let mut b = HashMap::new();
         if match_expr(&r.pat, e, &mut b) {
             let ts = instantiate(r.rep.clone(), &b);
@@ -182,6 +195,22 @@ pub fn apply_rules_once(e: &Expr, rules: &[Rule]) -> Option<(Expr, String)> {
                 Ok(ne) => return Some((ne, r.id.clone())),
                 Err(err) => {
                     eprintln!("weave: rule {} produced unparsable text `{}`: {}", r.id, ts, err);
+                }
+            }
+        }
+    }
+    None
+}
+
+/// Two-statement rules: `s1; s2` (expression statements) -> one expression statement.
+pub fn apply_stmt_rules(a: &Expr, b2: &Expr, rules: &[Rule]) -> Option<(Expr, String)> {
+    for r in rules {
+        if let Some(p2) = &r.pat2 {
+            let mut b = HashMap::new();
+            if match_expr(&r.pat, a, &mut b) && match_expr(p2, b2, &mut b) {
+                let ts = instantiate(r.rep.clone(), &b);
+                if let Ok(ne) = syn::parse2::<Expr>(ts) {
+                    return Some((ne, r.id.clone()));
                 }
             }
         }
